@@ -9,7 +9,7 @@ def profile(st):
     return {'minutes': (60, 500), 'p_data_route': 0.1,
             'program': {'p_enter': st.choice([0.3, 0.8], 'pe'),
                         'near_band_p': st.choice([0.0, 0.15, 0.4], 'nb'), 'wrong_side_p': st.choice([0.0, 0.05], 'ws'),
-                        'p_modify': st.choice([0.05, 0.2, 0.5], 'pm'), 'p_modify_entry': st.choice([0.0, 0.05], 'pme'),
+                        'p_modify': st.choice([0.05, 0.2, 0.5], 'pm'), 'p_withdraw': st.choice([0.0, 0.03, 0.1], 'pw'), 'p_modify_entry': st.choice([0.0, 0.05], 'pme'),
                         'sl_rows': st.choice([1, 2, 3], 'sl'), 'tp_rows': st.choice([1, 2, 3], 'tp'),
                         'p_keep_entry': st.choice([0.0, 0.3, 0.7], 'pk'), 'p_liquidate': st.choice([0.0, 0.02], 'pl'),
                         'entry_styles': st.choice([['market', 'limit', 'stop', 'ladder', 'mixed'], ['mixed', 'ladder']], 'es'),
